@@ -26,7 +26,7 @@ SOURCES = {"src/emoji_u1f600.svg": SVG_SQ, "src/emoji_u1f601_200d_1f600.svg": SV
 # field -> (file value, flag value, base format family)
 VALUES = {
     "family": ("File Fam", "Flag Fam", "vec"),
-    "output_file": ("FileOut.ttf", "FlagOut.ttf", "vec"),
+    "output_file": ("FileOut.otf", "FlagOut.ttf", "vec"),   # the suffix also selects the outline flavour
     "color_format": ("glyf_colr_0", "picosvg", "vec"),
     "upem": (2048, 1000, "vec"),
     "width": (1000, 900, "vec"),
@@ -249,7 +249,13 @@ def expected_ok(field, intended, obs, base_obs, sb):
             f"strike ppem {obs.get('ppem')} for resolution {intended}"
     if field in ("use_zopflipng", "use_pngquant", "pngquant_flags"):
         return None  # judged by png bytes below
-    if field in ("output_file", "ignore_reuse_error"):
+    if field == "output_file":
+        # "output file name in the path and outline flavour": .otf -> CFF outlines, .ttf -> TrueType outlines
+        cff = any(t in obs["tables"] for t in ("CFF ", "CFF2"))
+        want_cff = str(intended).endswith(".otf")
+        return None if cff == want_cff and ("glyf" in obs["tables"]) != want_cff else \
+            f"output file {intended}: outline tables {[t for t in obs['tables'] if t in ('glyf', 'CFF ', 'CFF2')]}"
+    if field == "ignore_reuse_error":
         return None
     return None
 
